@@ -37,7 +37,7 @@ const (
 
 func init() {
 	register("C10", "other", "T8 DecisionTable with value provenance (objects, not text), T4 GuardedBy with the linear normaliser, T2/T3 path rules, T6 WhoMayWrite, T17 Iteration view of loops, T19 ReachingDefs (tested frames), inlined views of ProcessRoot / chooseAtropos / notDecidedRoots / calcFrameIdx (helpers of the package are seen through, error tests threaded per return site)",
-		"Decides ONLY the rule constants of the election, i.e. the vote-rule table the property spells out; equivalence of the emitted blocks with an independent reference implementation needs execution and is NOT decided, nor is forkless-cause (vecfc, C05); of the frame rule only the frames that calcFrameIdx tests are decided (C10.frame: by reaching definitions, every frame handed to forklessCausedByQuorumOn is the self-parent's frame or the previously tested frame plus one on the edge where that test held; the rest of the frame rule is C04). Loops are taken as iterations (range, or counted from 0 with C[i], the bound possibly defined next to the index), loop membership is decided on the CFG, and the four functions are analysed as inlined views: any part of their work may live in helper functions of the package (vote computation per round, counting, lookups, stores, predicates; the vote under construction may be a helper's local that is copied into the stored variable), a helper's error return followed by the caller's `if err != nil { return … }` counts as the error exit it is; observedRoots/observedRootsMap may use a higher-order 'for each observed root' helper. Decided: round = root frame - frame to decide, older roots do not vote; round 1: yes is exactly the comma-ok of looking the subject up in the map of previous-frame roots that observe(newRoot, ·) accepts (keyed by their validator), such a vote never decides; later rounds: each vote of a previous-frame root that the new root observes is looked up for (that root, this subject) and counted with the voter's validator on the yes counter on the vote.yes edge and on the no counter on the other edge, the counters being fresh per subject; the new vote is yes >= no of those two counters' sums (normalised: a tie is yes), computed after all observed roots were counted and only if all counted votes reach quorum (otherwise error, as for a missing or double vote); decided is yesCounter.HasQuorum() OR noCounter.HasQuorum(); a vote enters decidedRoots exactly on the decided edge, under its subject; every subject's vote is stored under (new root, subject); chooseAtropos walks SortedIDs(), returns a root only on the decided-and-yes edge (Atropos = that vote's observed root, Frame = frameToDecide), continues only on the decided-and-no edge, returns (nil, nil) at the first undecided validator and an error when all are decided no.",
+		"Decides ONLY the rule constants of the election, i.e. the vote-rule table the property spells out; equivalence of the emitted blocks with an independent reference implementation needs execution and is NOT decided, nor is forkless-cause (vecfc, C05); of the frame rule only the frames that calcFrameIdx tests are decided (C10.frame: by reaching definitions, every frame handed to forklessCausedByQuorumOn is the self-parent's frame or the previously tested frame plus one on the edge where that test held; the rest of the frame rule is C04; C10.slots: the roots of a frame that the frame rule and the election read through Store.GetFrameRoots contain a multi-frame root in each of its frames — every iteration of Store.AddRoot's slot loop, which runs from selfParentFrame+1 while frame <= root.Frame(), writes the roots table and looks up the cached list of the iteration's own frame, storing it back on a hit; the content of the record and of the list is C33/C01). Loops are taken as iterations (range, or counted from 0 with C[i], the bound possibly defined next to the index), loop membership is decided on the CFG, and the four functions are analysed as inlined views: any part of their work may live in helper functions of the package (vote computation per round, counting, lookups, stores, predicates; the vote under construction may be a helper's local that is copied into the stored variable), a helper's error return followed by the caller's `if err != nil { return … }` counts as the error exit it is; observedRoots/observedRootsMap may use a higher-order 'for each observed root' helper. Decided: round = root frame - frame to decide, older roots do not vote; round 1: yes is exactly the comma-ok of looking the subject up in the map of previous-frame roots that observe(newRoot, ·) accepts (keyed by their validator), such a vote never decides; later rounds: each vote of a previous-frame root that the new root observes is looked up for (that root, this subject) and counted with the voter's validator on the yes counter on the vote.yes edge and on the no counter on the other edge, the counters being fresh per subject; the new vote is yes >= no of those two counters' sums (normalised: a tie is yes), computed after all observed roots were counted and only if all counted votes reach quorum (otherwise error, as for a missing or double vote); decided is yesCounter.HasQuorum() OR noCounter.HasQuorum(); a vote enters decidedRoots exactly on the decided edge, under its subject; every subject's vote is stored under (new root, subject); chooseAtropos walks SortedIDs(), returns a root only on the decided-and-yes edge (Atropos = that vote's observed root, Frame = frameToDecide), continues only on the decided-and-no edge, returns (nil, nil) at the first undecided validator and an error when all are decided no.",
 		[]string{"pos.WeightCounter.Count adds the weight of the validator passed, once (C11)", "Validators.SortedIDs is the canonical order (C12)", "observe/getFrameRoots are the forkless-cause and root-registry callbacks (C05, C33)"},
 		runC10)
 }
@@ -365,6 +365,7 @@ func runC10(c *core.Ctx) {
 		}
 	})
 	c10Frame(c)
+	c10Slots(c)
 	if x.pr == nil || x.vote == nil || x.subjIt == nil {
 		return
 	}
@@ -795,9 +796,10 @@ func runC10(c *core.Ctx) {
 			okE = !bad
 		}
 		c.Check(okE, "all validators decided no is an error", "T8 DecisionTable", loop.Pos(), "leaving the loop only leads to an error return", "when every validator is decided no chooseAtropos does not return an error")
-		// ProcessRoot reports an already reached decision first and re-evaluates at the end (see C10.round)
+		// ProcessRoot evaluates the walk decided above (that every vote is followed by the final
+		// `return el.chooseAtropos()` is an obligation of C10.round; this only guards against a vacuous view)
 		first := pr.CallsTo(c10El + ".chooseAtropos")
-		c.ExpectAtLeast("chooseAtropos calls in ProcessRoot", len(first), 2)
+		c.ExpectAtLeast("chooseAtropos calls in ProcessRoot", len(first), 1)
 	})
 
 	c.Clause("C10.subjects", func() {
